@@ -42,8 +42,78 @@ def batch_oracle(ctx, lines, impl):
             verdicts[i] = "Postgres placeholders are numbered %s, expected 1..%d ascending" % (ps, len(vals))
         elif b != "pg" and any(p != 0 for p in ps):
             verdicts[i] = "non-positional placeholder on %s" % b
+        if verdicts[i] is None and vals:
+            # values given together are bound together, in the order given
+            import sexp
+            try:
+                prog = sexp.parse(lines[i].split(" ", 2)[2])
+            except Exception:
+                prog = None
+            runs = []
+            value_runs(prog, runs)
+            for run in runs:
+                # only runs whose values identify themselves: at least three values, each bound exactly once in the
+                # whole statement (a clause that a dialect does not render binds none of them and is skipped)
+                if len(run) < 3 or len(set(run)) != len(run) or any(vals.count(x) != 1 for x in run):
+                    continue
+                RUNS[0] += 1
+                if not contains_run(vals, run):
+                    verdicts[i] = "the values %s were given in this order but are bound in another order: %s" % (run, vals[:40])
+                    break
     ctx.cov["oracle_statements_scanned"] = checked
+    ctx.cov["oracle_value_runs_checked"] = RUNS[0]
     return verdicts
+
+
+RUNS = [0]
+
+
+def bound_form(atom):
+    """the printed form of a bound value for a basic value atom of the case language; None for the other kinds"""
+    t = atom.split(":")
+    if t[0] == "i" and len(t) == 3:
+        return "%s:%s" % (t[1], t[2])
+    if t[0] in ("s", "c", "y", "b") and len(t) == 2:
+        return "%s:%s" % (t[0], t[1])
+    if t[0] == "n" and len(t) == 2:
+        return "%s:N" % t[1]
+    return None
+
+
+def value_runs(node, out):
+    """lists of values the program gives in one go (a VALUES-table row, an IN list, a value tuple): each must be
+    bound in exactly that order, as one contiguous run"""
+    if not isinstance(node, list) or not node:
+        return
+    h = node[0]
+    run = None
+    if h == "tvalues":
+        for r in node[2:]:
+            if isinstance(r, list) and r and r[0] == "row":
+                value_runs_add(r[1:], out)
+    elif h in ("vals",):
+        run = node[1:]
+    elif h in ("isin", "isnotin"):
+        run = node[2:]
+    elif h == "intuples":
+        for t in node[2:]:
+            if isinstance(t, list):
+                value_runs_add(t, out)
+    if run is not None:
+        value_runs_add(run, out)
+    for c in node[1:]:
+        value_runs(c, out)
+
+
+def value_runs_add(atoms, out):
+    forms = [bound_form(a) if isinstance(a, str) else None for a in atoms]
+    if len(forms) >= 2 and all(f is not None for f in forms):
+        out.append(forms)
+
+
+def contains_run(vals, run):
+    n = len(run)
+    return any(vals[i:i + n] == run for i in range(len(vals) - n + 1))
 
 
 def regen_tables(ctx):
